@@ -247,8 +247,29 @@ ASSUMPTIONS = [
     "the second call of sibling / siblingCall / prior always differs from the observed one in its receiver or in every "
     "argument object, with the same spelling (so any key function that keeps the arguments apart separates them: "
     "hypothesis hkey of C09_second_call_partial, needed - C09_second_call_key_needed); how often a body runs for two IDENTICAL "
-    "calls (in-flight sharing, cache hits) is C12 / C13 and the conventions are skipped there; argument objects "
-    "compare by identity (no two distinct objects are ==)",
+    "calls (in-flight sharing, cache hits) is C12 / C13 and the conventions are skipped there; argument objects AND RECEIVERS "
+    "compare by identity (no two distinct objects are ==).  With a receiver class that has value equality this is false of "
+    "the code for the deduplicate cells: while a.m.asynq(x) is in flight, b.m.asynq(x) / async_call(b.m, x) of a DISTINCT "
+    "instance b == a are answered with a's task, i.e. the body runs with a as bound instance (reproduced: frozen dataclass "
+    "with a compare=False field, own __eq__ / __hash__) - inside C09's 'same bound instance'; recorded as the OPEN FINDING "
+    "dedup/fail:equal-instances@call of C12 (known_findings.json, also_properties C09), generated, modelled and "
+    "witnessed there (checks/c12.py `insteq`, Lib/DedupEq.lean, C12_equal_instances_counterexample); this check does not "
+    "generate it a second time",
+    "ASYNCIO MODE, allow_sync_call (audit 3, B7) - OUTSIDE the statement: the sentence 'the synchronous call, .asynq().value(), "
+    "yielding .asynq() from a task and async_call all ... give the same outcome; when sync_fn is supplied the synchronous call "
+    "runs sync_fn instead' describes asynq mode.  Under a running fn.asyncio() the library REFUSES the synchronous call of every "
+    "@asynq / sync_fn-pair callable by design (RuntimeError 'asyncio mode does not support synchronous calls', "
+    "decorators.py AsyncDecorator.__call__ / AsyncAndSyncPairDecorator.__call__), so the conventions cannot agree there for any "
+    "decorator kind and the property's quantifier has no mode dimension (what asyncio mode delivers is C15).  "
+    "Reproduced on 28d2b07 and NOT judged here: (1) allow_sync_call=True turns the refusal into a logged warning and the call "
+    "then returns None WITHOUT running the body or sync_fn (the `else:` branch holds the only return); (2) "
+    "AsyncAndSyncPairDecorator.__get__ (decorators.py:283-289) rebuilds the decorator without allow_sync_call, "
+    "so for a METHOD with sync_fn the opt-out is lost: "
+    "C().m(2) raises RuntimeError where the module-level function returns None; C.__dict__['m'].allow_sync_call is True, "
+    "C().m.decorator.allow_sync_call False.  One-line repair of (2): pass self.allow_sync_call as last argument of "
+    "qcore.decorators.decorate(AsyncAndSyncPairDecorator, ...) in __get__ - described in INTEGRATION.md, no finding recorded "
+    "because neither behaviour is reachable with asyncio mode off, where every observed convention of this check runs "
+    "(decoration option `kwopt` supplies allow_sync_call=True and checks that it changes nothing there)",
     "C09_dedup_own_body / C09_own_entries: entries of the function under test in the in-flight table / the caches were "
     "put there by calls of that function (Table.ownConsistent) and none that runs with other arguments sits under this "
     "call's key (Table.separates: any injective key function - the default is - or no own entry: C09_separates); both "
